@@ -20,6 +20,7 @@ FIXES = {  # defect -> subject prefix of the fix commit
  'D8': 'fix: csv merge_escape_parts recognises',
  'D9': 'fix: progress seeds its accumulator',
  'D10': 'fix: zstd.decompress accepts an empty chunk',
+ 'D11': 'fix: split does not compare the first item of a key with itself',
 }
 PQ = {'load_batch': 2, 'row_group': None, 'compression': 'snappy', 'cols': ['i', 's'], 'fileobj': False, 'seed': 1}
 W = [  # (defect, property, sub, name, what, case)
@@ -40,6 +41,7 @@ W = [  # (defect, property, sub, name, what, case)
  ('D8', 'C18', 'memory', 'csv-trailing-escape', 'string ending with the escape character next to a string containing the separator', {'sep': ',', 'esc': '\\', 'types': ['int', 'str'], 'rows': [[0, ',\\']]}),
  ('D9', 'C09', 'derived', 'progress-seed', 'progress raised ValueError on every use', {'node': ['progress', 2], 'tin': 'int', 'driver': 'layers', 'layers': [], 'items': [1, 2, 3]}),
  ('D9', 'C01', 'grouped', 'progress-seed', 'progress raised ValueError on every use (plain and multiplexed)', {'tin': 'int', 'p': [['progress', 1]], 'items': [[0, 0]]}),
+ ('D11', 'C06', 'runs', 'split-nan-first', 'split emitted an extra empty segment when the first predicate value of a key differs from itself (NaN)', {'pool': [['nan', 0]], 'preds': [0, 0], 'gk': [0, 0], 'parent': 'none', 'pspec': None, 'p': [['to_list']]}),
  ('D10', 'C16', 'roundtrip', 'zstd-empty-chunk-after-eos', 'zstd.decompress failed on an empty chunk after the end-of-stream marker', {'codec': 'zstd', 'chunks': [[7, 'text', 1]], 'cuts': [1000000]}),
 ]
 
